@@ -183,7 +183,7 @@ CHECKS["C22"] = {
 
 CHECKS["C23"] = {
     "technique": "model-based history testing: request/edit sequences on caching loaders vs their non-caching twins",
-    "text": "Random histories (3-12 steps) of synchronous and asynchronous requests - direct with namespace keyword / request globals, or through include+render tags with the namespace in the render context - interleaved with source edits and removals, for five caching loaders (dict, choice, file system, and namespace-aware dict/file loaders composed with CachingLoaderMixin as documented) with capacity 1-4, auto_reload on/off and namespace_key set/unset; after every request the name, source, globals and rendered text (or error class) must equal those of the same loader without the mixin reading the same store.",
+    "text": "Random histories (3-12 steps) of synchronous and asynchronous requests - direct with namespace keyword / request globals, or through include+render tags with the namespace in the render context - interleaved with source edits and removals, for six caching loaders (dict, choice, file system, namespace-aware dict/file loaders composed with CachingLoaderMixin as documented, and a choice loader over two namespace-aware children) with capacity 1-4, auto_reload on/off and namespace_key set/unset; after every request the name, source, globals and rendered text (or error class) must equal those of the same loader without the mixin reading the same store.",
     "design_ref": "DESIGN.md §4 C23",
     "note": "With auto_reload off any earlier version of that same (namespace, name) is accepted. File edits bump mtime explicitly (os.utime), so mtime granularity cannot flake.",
 }
